@@ -372,6 +372,15 @@ func (p *Proxy) handleCONNECT(r responder.Responder, proxyReq *http.Request) err
 		if err := p.handleHTTP(exchangeResponder, req); err != nil {
 			slog.Error("Error processing HTTP request in CONNECT tunnel", "host", proxyReq.Host, "error", err)
 		}
+
+		// The next request starts where this one's body ends. A body the exchange did not read (the answer came
+		// from the cache, or from a fetch another client made) must not be left on the connection, or its bytes
+		// are parsed as the next request.
+		if _, err := io.Copy(io.Discard, req.Body); err != nil {
+			slog.Debug("Client went away while sending its request body in CONNECT tunnel", "host", proxyReq.Host, "error", err)
+			break
+		}
+		req.Body.Close()
 	}
 
 	slog.Debug("Exiting CONNECT tunnel", "host", proxyReq.Host)
